@@ -20,8 +20,14 @@ StabThreshold == -1500000
 D(a, b, f) == LSub(a[f], b[f])
 Residual == LSub(LAdd(LAdd(LAdd(D(Nit, Mov, "sumC1"), D(Nit, Mov, "AUFNASUM")), D(Nit, Mov, "OUTSUM")), D(Nit, Mov, "DRAINLOSS")), Mov.sumDNw)
 Paired == AfterNitro => Mov.ev = "nitro.move" /\ Mov.subd = Nit.subd
-K02_Conservation == AfterNitro => LAbsLe(LSub(Residual, Nit.clamp), TolN)
-K02_ClampFlag == AfterNitro => LGeNeg(Nit.clamp, 0) /\ (Nit.minCk < StabThreshold => Nit.unstable)
+\* see C02_Transport / C02_Clamp of Trace_Run: never negative, zero unless a layer is left at its floor
+K02_Conservation == AfterNitro => /\ LGeNeg(Residual, TolN)
+                                  /\ (Nit.nfloor = 0 => LAbsLe(Residual, TolN))
+K02_ClampFlag == AfterNitro => (LGeNeg(LSub(Residual, [h |-> 1500 * Nit.nfloor, l |-> TolN]), 0) /\ Nit.nfloor > 0 => Nit.unstable)
+\* model equality (MODEL-DRIFT, never a verdict): the residual is exactly what the clamp added, reconstructed per layer from
+\* the routine's own dispersion / convection arrays, and a layer value below the threshold flags the run
+K02_ClampReconstructed == AfterNitro => /\ LAbsLe(LSub(Residual, Nit.clamp), TolN) /\ LGeNeg(Nit.clamp, 0)
+                                        /\ (Nit.minCk < StabThreshold => Nit.unstable)
 K07_NonNeg == l > 1 => Ev.minPool >= 0 /\ Ev.minCounter >= 0 /\ Ev.finite
 K07_CreditOnce == AfterNitro =>
    /\ LAbsLe(LSub(D(Nit, Mov, "PESUM"), LAdd(D(Nit, Mov, "AUFNASUM"), IF Mov.credit THEN Mov.schnorr ELSE LZero)), TolN)
